@@ -201,10 +201,10 @@ func genC06(t *rapid.T) *C06Case {
 			n := rapid.IntRange(0, 2).Draw(t, "clashn")
 			if rapid.Bool().Draw(t, "clashtext") {
 				c.Clash, c.Name = "text", fmt.Sprintf("%s_Text_%d", owner, n)
-				c.File.Tops = append(c.File.Tops, &Top{K: "text", Text: &TextStmt{Name: c.Name, Val: &TextVal{Lit: &StrLit{Parts: []string{"user text"}}}}})
+				c.File.Tops = append(c.File.Tops, &Top{K: "text", Text: &TextStmt{Name: c.Name, Scope: rapid.SampledFrom([]string{"", "global", "local"}).Draw(t, "clashscope"), Val: &TextVal{Lit: &StrLit{Parts: []string{"user text"}}}}})
 			} else {
 				c.Clash, c.Name = "movement", fmt.Sprintf("%s_Movement_%d", owner, n)
-				mv := &Top{K: "movement", Movement: &Movement{Name: c.Name, Steps: []*Step{{Name: "walk_up"}}}}
+				mv := &Top{K: "movement", Movement: &Movement{Name: c.Name, Scope: rapid.SampledFrom([]string{"", "global", "local"}).Draw(t, "clashscope"), Steps: []*Step{{Name: "walk_up"}}}}
 				pos := rapid.IntRange(0, len(c.File.Tops)).Draw(t, "clashpos")
 				c.File.Tops = append(c.File.Tops[:pos], append([]*Top{mv}, c.File.Tops[pos:]...)...)
 			}
